@@ -167,6 +167,20 @@ func c06One(r *core.Run, fam string, s gen.Signed, aux int, desc string, vector 
 	}
 	if verr != nil {
 		fail("does-not-verify-after-the-wire", "serialise + parse + verify fails: "+errClass(verr.Error()))
+	} else if fam == "LeaseSet" || fam == "EncryptedLeaseSet" {
+		// history: the receive buffer is reused for the next frame; a value of a structure that owns its bytes
+		// (property C08's list: LeaseSet, EncryptedLeaseSet) keeps verifying
+		keep := append([]byte(nil), out...)
+		for i := range out {
+			out[i] = 0x5a
+		}
+		var v3 error
+		if pan, msg := core.Guard(func() { v3 = rv() }); pan {
+			fail("verify-panics", msg)
+		} else if v3 != nil {
+			fail("does-not-verify-after-the-receive-buffer-was-reused", "parsed back, verified, then the buffer it was parsed from was overwritten: "+errClass(v3.Error()))
+		}
+		out = keep
 	}
 	if ok, why := refmodel.VerifyRaw(b.authKind, out); !ok {
 		fail("independent-verification-fails", "the independent verifier rejects the constructor's bytes: "+why)
@@ -257,6 +271,24 @@ func c06Options(r *core.Run) {
 		})
 	}
 	_ = data.Mapping{}
+	// options at the 16-bit size boundary: every mapping body length 65,500 ... 65,790 (128 pairs, strings <= 255
+	// bytes). Whatever NewRouterInfo agrees to sign must come back from the wire and verify; beyond 65,535 it has to
+	// refuse (a size field that wrapped produces a RouterInfo that signs, verifies in memory and cannot be parsed)
+	var bodies []int
+	for b := 65500; b <= 65790; b++ {
+		if r.Quick() && !(b >= 65528 && b <= 65542) && b%40 != 0 && b != 65790 {
+			continue // quick: every length around the boundary and a coarse grid beyond it
+		}
+		bodies = append(bodies, b)
+	}
+	core.ParallelFor(len(bodies), func(_, i int) {
+		var m refmodel.Mapping
+		for k, v := range c14BigMap(bodies[i]) {
+			m = append(m, refmodel.Pair{K: []byte(k), V: []byte(v)})
+		}
+		ri := refmodel.RouterInfo{Ident: id, Published: gen.PublishedMs, Addrs: []refmodel.RouterAddress{{Cost: 5, Style: []byte("NTCP2"), Options: gen.MappingMenu[1]}}, Options: m.Sorted()}
+		c06One(r, "RouterInfo", gen.Signed{Kind: "RouterInfo", Value: ri, Signer: kp, IDKey: kp}, 0, fmt.Sprintf("options body of %d bytes", bodies[i]), nil, 0)
+	})
 }
 
 func runC06(r *core.Run) {
